@@ -27,13 +27,17 @@ RULE = (
     '"+" and "-" equal the union of what they abbreviate (also with the '
     'ranks written in the other order), separators , ; space and several '
     'arguments are interchangeable, every element is two distinct real '
-    'cards; also in the short-deck rank order. Equities: seeded fully '
+    'cards; also in the short-deck and ace-low rank orders, the three '
+    'orders run in sequence in one process. Equities: seeded fully '
     'specified deals (2-6 players, every hand-type tuple incl. hi-lo, '
     'Omaha, short-deck, badugi) must give the same non-negative shares '
     'summing to 1 for sample counts 1, 7 and 50 and equal the split the '
     'ENGINE pays when the same cards are played to showdown with equal '
-    'Fraction stacks; partial deals: non-negative, sum 1; hand strength in '
-    '[0,1]. ICM: non-negative, sum = prize pool, weakly ordered as the chips '
+    'Fraction stacks; ranges padded with dead combinations (board cards) '
+    'give the same equities; partial deals: non-negative, sum 1, and with '
+    'at most two unknown cards the Monte-Carlo estimate (300 samples) lies '
+    'within 6 standard errors of the exact value from enumerating every '
+    'completion; hand strength in [0,1]. ICM: non-negative, sum = prize pool, weakly ordered as the chips '
     'for non-increasing payouts, equal chips => equal values, and equal to '
     'an independent Malmuth-Harville recursion. distinct_nontrivial = '
     'distinct (kind, form / hand-type tuple / vector shape) cases.')
